@@ -4,7 +4,7 @@ import json, time
 from . import core, ref, c01
 
 RULE = ("designed liquid scenarios (one or two ext_grids on the feeder junction -> mean pressure; demands; feed-in) + TLC-generated nets with "
-        "flow controllers, pressure controllers, both circulation pumps, several feeders per junction; non-trivial = >= 3 junctions")
+        "flow controllers, pressure controllers, both circulation pumps, compressors between junctions at different heights, several feeders per junction; non-trivial = >= 3 junctions")
 
 
 def main():
@@ -14,6 +14,10 @@ def main():
     ctl = dict(MaxJ="= 3", MaxE="= 4", MaxN="= 2", MaxPV="= 0", Kinds="<- KindsCtl", NKinds="<- NKindsCore", TogJ="= FALSE")
     e2 = c01.generic_part(V, core.tier(), core.seed() + 29, checks=("C03",), emit=ctl)
     extra.update({k + "_controller_nets": v for k, v in e2.items()})
+    # gas nets with compressors and junctions at different heights (absolute pressure ratio with the ambient pressure of each end)
+    gasc = dict(MaxJ="= 4", MaxE="= 4", MaxN="= 3", MaxPV="= 0", Kinds="<- KindsGas", NKinds="<- NKindsCore", TogJ="= FALSE")
+    e3 = c01.generic_part(V, core.tier(), core.seed() + 41, checks=("C03",), emit=gasc, fluid="lgas", heights=True)
+    extra.update({k + "_compressor_nets": v for k, v in e3.items()})
     rc1 = V.finish()
     rc2 = ref.run_check("C03", RULE, extra_cov=extra, prior_violations=len(V.violations))
     return 1 if (rc1 or rc2) else 0
